@@ -29,8 +29,19 @@ func randomJob(rng *rand.Rand, idx int) Job {
 	g := &rgen{rng: rng, n: nn, enc: srcEnc}
 	job := Job{Origin: "random"}
 	refTargets := map[int]bool{}
+	twinned := map[int]bool{}
 	for i := 1; i <= nn; i++ {
 		nd := Node{N: i}
+		// a stale reference: the number of an earlier object, another generation
+		if i > 2 && rng.Intn(8) == 0 {
+			j := 1 + rng.Intn(i-1)
+			if k := job.Nodes[j-1]; (k.K == "val" || k.K == "ref") && k.Twin == 0 && !twinned[j] {
+				twinned[j] = true
+				nd.K, nd.Twin = "dangling", j
+				job.Nodes = append(job.Nodes, nd)
+				continue
+			}
+		}
 		switch k := rng.Intn(20); {
 		case k < 2:
 			nd.K = "free"
@@ -156,7 +167,10 @@ func (g *rgen) objectValue() Val {
 	st := Val{T: "st", Body: "b", CF: "default"}
 	if g.enc != "none" {
 		st.CF = []string{"default", "default", "identity", "named"}[g.rng.Intn(4)]
+	} else if g.rng.Intn(4) == 0 {
+		st.CF = "identity"
 	}
+	st.CFI = st.CF != "default" && g.rng.Intn(2) == 0
 	n := g.n
 	parms := di([]string{"Columns", "Predictor"}, []Val{sc("i:4"), sc("i:12")})
 	switch g.rng.Intn(6) {
